@@ -525,7 +525,7 @@ class PrivacyEngine:
                 target_epsilon=target_epsilon,
                 target_delta=target_delta,
                 sample_rate=sample_rate,
-                epochs=epochs,
+                steps=epochs * len(data_loader),
                 accountant=self.accountant.mechanism(),
                 **kwargs,
             ),
